@@ -1,0 +1,35 @@
+//go:build verif
+
+package proxy
+
+// Verification re-exports for property C34 (rate limiters) — /verif/harness/cmd/c34.
+// The harness is a separate module and cannot import gate's internal packages; these are type
+// aliases and one-line forwarding functions only. Compiled only with `-tags verif`.
+
+import (
+	"time"
+
+	"go.minekube.com/gate/pkg/internal/addrquota"
+	"go.minekube.com/gate/pkg/internal/packetlimiter"
+)
+
+type (
+	VerifC34Limiter      = packetlimiter.Limiter
+	VerifC34CounterState = packetlimiter.VerifCounterState
+	VerifC34Counter      = packetlimiter.VerifCounter
+	VerifC34Quota        = addrquota.Quota
+)
+
+func VerifC34NewLimiter(packetsPerSecond, bytesPerSecond int, window time.Duration) *VerifC34Limiter {
+	return packetlimiter.New(packetsPerSecond, bytesPerSecond, window)
+}
+
+func VerifC34NewCounter(intervalNanos int64) *VerifC34Counter {
+	return packetlimiter.VerifNewCounter(intervalNanos)
+}
+
+func VerifC34NewQuota(eventsPerSecond float32, burst, maxEntries int) *VerifC34Quota {
+	return addrquota.NewQuota(eventsPerSecond, burst, maxEntries)
+}
+
+func VerifC34IPKey(ip string) string { return addrquota.VerifIPKey(ip) }
